@@ -66,7 +66,11 @@ def selftest_trace(ctx, module, cfgname, cfg, trace, name):
             return True, v + 1
         return False, v
 
-    ok, _ = bump(lines[i])
+    if isinstance(lines[i].get("ok"), bool):
+        lines[i]["ok"] = not lines[i]["ok"]          # the verdict always matters
+        ok = True
+    else:
+        ok, _ = bump(lines[i])
     if not ok:
         raise ToolError("selftest: nothing to corrupt in event %d of %s" % (i, trace))
     bad = trace + ".corrupt"
@@ -586,6 +590,15 @@ def check_C11(ctx):
         f = records_cases(ctx, sec, n)
         summ = harness(ctx, ["records", "replay", "--spellings", "2"], cases_file=f, name="records-" + sec, timeout=3600)
         report_mismatches(ctx, summ, "[%s] records decode differently from the format rules of Records.tla" % sec)
+    # impl -> spec: long random record sequences per section
+    sany(ctx, "Trace_Records")
+    for sec in RECORD_SECTIONS:
+        tcfg = dict(spec="TrSpec", postcondition="Accepted",
+                    constants=dict(Section='"%s"' % sec, MaxRecs="0", Emit="FALSE", ColonSplit='"first"'))
+        runs, lines = (40, 120) if thorough else (8, 60)
+        trace_step(ctx, "Trace_Records", "Trace_Records_%s" % sec, tcfg,
+                   ["records", "record", "--section", sec, "--runs", str(runs), "--lines", str(lines)],
+                   "recorded [%s] decoding is not a behaviour of Records.tla" % sec, "records-trace-" + sec)
     ctx.assumptions += ["value alphabets of Records.tla (integers, hundredths, boundary classes, text pool); f32 fields are not given the "
                         "classes 2^31 / 2^31-1 (not representable in f32: outcome not determined by the statement)",
                         "[Editor] Bookmarks is covered by the C03 check"]
